@@ -53,8 +53,8 @@ static const double EPS = 2.220446049250313e-16;
 // ================================================================= sub 1: Huffman tree measure
 struct Built {
   Segment seg{"seg", 0};
-  std::unique_ptr<GNode> node;
-  std::vector<GNode> dests;
+  std::unique_ptr<GNode> node, pre;
+  std::vector<GNode> dests, predests;
 };
 static void build_node(const json &c, Built &B) {
   std::vector<double> rates = c.at("rates").get<std::vector<double>>();
@@ -74,6 +74,16 @@ static void build_node(const json &c, Built &B) {
       B.node->InitEscapeRate();
       B.node->MakeHuffTree();
     }
+  }
+  if (c.value("preuse_longer", 0) > 0) {
+    // history: the tree object of this node has been built for a LONGER event list before (a reused huffmanTree)
+    B.pre.reset(new GNode(B.seg, QMStateType::Electron, true));
+    size_t m = rates.size() + size_t(c.value("preuse_longer", 0));
+    B.predests.reserve(m);
+    for (size_t i = 0; i < m; ++i) B.predests.emplace_back(B.seg, QMStateType::Electron, true);
+    for (size_t i = 0; i < m; ++i) B.pre->AddEvent(&B.predests[i], Eigen::Vector3d(double(i), 1, 0), 1.0 + double(i % 5));
+    B.node->hTree.setEvents(&B.pre->events_);
+    B.node->hTree.makeTree();
   }
   B.node->InitEscapeRate();
   B.node->MakeHuffTree();
@@ -109,6 +119,7 @@ static Result run_tree(const json &c) {
   if (mx / double(sum) > 0.999) r.cls("one-dominant");
   if (c.contains("decay") && !c["decay"].empty()) r.cls("has-decay-event");
   if (c.value("rebuild_after", 0) > 0) r.cls("tree-rebuilt-after-adding-events");
+  if (c.value("preuse_longer", 0) > 0) r.cls("tree-object-used-for-a-longer-list-before");
 
   // ---- escape rate == sum of the event rates
   double esc = node.getEscapeRate();
@@ -278,6 +289,7 @@ static json gen_tree() {
   if (rbool(25)) decay.push_back(ri(0, n - 1));
   c["decay"] = decay;
   c["rebuild_after"] = (n >= 2 && rbool(35)) ? ri(1, n - 1) : 0;
+  c["preuse_longer"] = rbool(25) ? ri(1, 9) : 0;
   return c;
 }
 
@@ -354,6 +366,11 @@ static Result run_marcus(const json &c) {
 
   Eigen::Vector3d field(F[0], F[1], F[2]);
   Rate_Engine eng(kT, field);
+  // the engine is constructed from a caller variable that changes afterwards (field sweep), and a second engine is alive;
+  // the rates must belong to the field the engine was constructed with
+  field = Eigen::Vector3d(7.7e-3, -3.3e-3, 5.5e-3);
+  Rate_Engine other(kT * 2, field);
+  (void)other;
   PairSetup P, P2;
   setup_pair(c, P, 1.0);
   double alpha = c.at("alpha");
